@@ -291,8 +291,19 @@ func FreshDistinct(name string, n int) []byte {
 	return v
 }
 
+// ConcreteRandomness makes crypto/rand deliver fixed, pairwise different byte strings
+// instead of symbolic ones (for harnesses in which the random values only name things, e.g.
+// a default device id that is formatted and compared many times).
+var ConcreteRandomness bool
+
 func RandRead(b []byte) (int, error) {
 	randCount++
+	if ConcreteRandomness {
+		for i := range b {
+			b[i] = byte(randCount*31 + i*7 + 1)
+		}
+		return len(b), nil
+	}
 	copy(b, FreshDistinct("rand", len(b)))
 	return len(b), nil
 }
